@@ -53,6 +53,7 @@ type connDriver struct {
 	// the second limiter's held requests
 	otherRelease      chan struct{}
 	otherIn, otherOut sync.WaitGroup
+	otherRefused      atomic.Int64
 }
 
 const connLongPrefix = "Bearer eyJhbGciOiJSUzI1NiIsInR5cCI6IkpXVCIsImtpZCI6InByb2QtMjAyNi0wOSJ9.eyJpc3MiOiJodHRwczovL2lkLmV4YW1wbGUuY29tIiwiYXVkIjoiYXBpIn0."
@@ -141,6 +142,7 @@ func newConnDriver(limit int64) *connDriver {
 	// whole life of this driver: limiters are independent of each other
 	d.otherRelease = make(chan struct{})
 	other, err := connlimit.New(http.HandlerFunc(func(w http.ResponseWriter, req *http.Request) {
+		w.Header().Set("X-Entered", "1")
 		d.otherIn.Done()
 		<-d.otherRelease
 	}), ex, 1)
@@ -159,7 +161,12 @@ func newConnDriver(limit int64) *connDriver {
 			d.otherOut.Add(1)
 			go func() {
 				defer d.otherOut.Done()
-				other.ServeHTTP(httptest.NewRecorder(), req)
+				rec := httptest.NewRecorder()
+				other.ServeHTTP(rec, req)
+				if rec.Header().Get("X-Entered") == "" {
+					d.otherIn.Done() // refused by the other limiter (it cannot be: it is fresh and holds nothing) - do not wait for it
+					d.otherRefused.Add(1)
+				}
 			}()
 		}
 		d.otherIn.Wait()
@@ -275,6 +282,10 @@ func genConnScript(r *rand.Rand, nsrc, n int) []connStep {
 func runConnScript(c *Ctx, limit int64, script []connStep, tag string) (decisions map[string][]bool, maxSeen map[string]int64, ok bool) {
 	d := newConnDriver(limit)
 	defer d.close()
+	if d.otherRefused.Load() > 0 {
+		c.Violation("controlled/rejected-below-limit", sfmt("a freshly built limiter (limit 1, nothing in flight) rejected the first request of %d source(s): limiters of one process are not independent", d.otherRefused.Load()), nil)
+		return nil, nil, false
+	}
 	inflight := map[string][]int{}
 	decisions = map[string][]bool{}
 	id := 0
